@@ -516,6 +516,9 @@ FAULT_BASES = {
   'rawseek':   ('B', ['rs 0 o:1:3:0', 'rf 0 64', 'rs 0 o:0:2:5', 'rf 0 64']),
   'timeseek':  ('E', ['ts 0 1 20000 1', 'rf 0 64', 'tsp 0 2 100 0', 'rf 0 64']),
   'lapseek':   ('B', ['rf 0 100', 'psl 0 f:1:1:3:0', 'rf 0 300', 'rsl 0 o:0:3:0', 'rf 0 64', 'tsl 0 0 5000 0', 'rf 0 64']),
+  # lapped seeks that find the decoder drained (every read before them took all that was pending, and the read callback never delivers beyond the
+  # current page): the lapping helper has to fetch from the source, with the fault in force
+  'lapdrain':  ('B', ['sr 0 4 0', 'rf 0 100000', 'psl 0 f:0:1:2:0', 'rf 0 100000', 'pspl 0 f:1:1:2:0', 'rf 0 100000', 'tsl 0 1 3000 0', 'rf 0 100000', 'rsl 0 o:0:3:0', 'rf 0 64']),
   'halfrate':  ('T', ['rf 0 100', 'hr 0 1', 'rf 0 100', 'ps 0 f:1:1:2:0', 'rf 0 64', 'hr 0 0', 'rf 0 64']),
   'spanning':  ('H', ['psp 0 f:0:1:3:0', 'rf 0 64', 'ps 0 k:0:6:1', 'rf 0 64']),
 }
@@ -570,7 +573,7 @@ def check_c12(pid, tier, seed, replay=None):
     step = 7 if quick else 1
     for b in FAULT_BASES:
         tot = counts[b]['total']
-        if quick and b not in ('open','pcmseek','rawseek','lapseek','linear','halfrate'): continue
+        if quick and b not in ('open','pcmseek','rawseek','lapseek','lapdrain','linear','halfrate'): continue
         for kind in (1,2,3,4,5):
             K = tot[0] if kind <= 3 else (tot[1] if kind == 4 else tot[2])
             K = K + 2
@@ -634,7 +637,7 @@ def check_c12(pid, tier, seed, replay=None):
       extra_cov=dict(callback_counts=counts, fault_kinds=FAULT_KINDS))
 
 # ---------------------------------------------------------------- C03 damaged physical streams
-DAMAGE_KINDS = ['garbage','oggs','drop','dup','swap','trunc','setgp','gphuge','cleareos','seteos','setbos','setserial','flip','flipfix','zero']
+DAMAGE_KINDS = ['garbage','oggs','drop','dup','dupbos','swap','trunc','setgp','gphuge','cleareos','seteos','setbos','setserial','flip','flipfix','zero']
 
 def damage_lines(rng, fkey, npages_guess, n):
     out = []
